@@ -422,6 +422,9 @@ type feScenario struct {
 	unknownSeen   int
 	midSeen       int
 	lastDiff      map[string]string // differences reported at the previous point: session -> kind|what the standby held
+
+	fEps []*ffEpisode // layer F (layerf_test.go): the episodes played so far
+	fctx *ffEpisode   // layer F: the point being judged follows the quiet resyncs of this episode
 }
 
 func (sc *feScenario) cnt(k string, n int) { sc.base.cnt(k, n) }
@@ -464,6 +467,9 @@ func (sc *feScenario) describe() map[string]any {
 	pts := sc.points
 	if len(pts) > 12 {
 		pts = pts[len(pts)-12:]
+	}
+	if sc.fEps != nil {
+		return sc.describeF(wins, pts)
 	}
 	return map[string]any{"layer": "E", "scenario": sc.idx, "seed": run.Seed, "full_sync_interval_of_standby": sc.ivName, "heartbeat_interval": sc.base.hb.String(),
 		"windows": wins, "snapshot_requests_seen_by_front_end": sc.fe.exchCopy(30), "convergence_points": pts, "last_changes_on_active": sc.base.pushTail(30),
@@ -902,6 +908,9 @@ func (sc *feScenario) judge(ep int, after string, win *feWinRec, sent *pushRec, 
 	pt.Equal = len(ds) == 0
 	sc.points = append(sc.points, pt)
 	sc.cnt("E_convergence_points_judged", 1)
+	if sc.fctx != nil {
+		sc.cnt("F_points_after_resync_while_quiet_following_snapshot_built_while_sessions_changed", 1)
+	}
 	sc.cnt("E_convergence_points_full_sync_interval_"+sc.ivName, 1)
 	if sc.interval > 0 && sc.interval < time.Second {
 		sc.cnt("E_convergence_points_on_standby_with_small_full_sync_interval", 1)
@@ -959,8 +968,15 @@ func (sc *feScenario) judge(ep int, after string, win *feWinRec, sent *pushRec, 
 	}
 	kinds := strings.Join(diffKinds(ds), "+")
 	wit := map[string]any{"scenario": sc.describe(), "point": pt, "differences": ds, "window_before_this_point": win}
-	head := fmt.Sprintf("layer E scenario %d (standby FullSyncInterval %s): the standby reports IsConnected()==true, the active is quiet and a sentinel pushed afterwards (op %d) came through the stream, no snapshot is on its way, yet standby %s != active %s (%s)", sc.idx, sc.ivName, sent.Op, got, want, kinds)
+	layer := "E"
+	if sc.fEps != nil {
+		layer = "F"
+	}
+	head := fmt.Sprintf("layer %s scenario %d (standby FullSyncInterval %s): the standby reports IsConnected()==true, the active is quiet and a sentinel pushed afterwards (op %d) came through the stream, no snapshot is on its way, yet standby %s != active %s (%s)", layer, sc.idx, sc.ivName, sent.Op, got, want, kinds)
 	switch {
+	case sc.fctx != nil:
+		violation(sc.size(), compLoop, ruleConv, "after-resync-while-quiet-following-snapshot-built-while-sessions-changed",
+			fmt.Sprintf("%s; before that, the active had built a full-sync reply while its session manager changed sessions (in the middle of the handler's table read: before it %v, after it %v; all stored first, then pushed), and then, with no further change on the active, the link was cut and the standby re-synchronised %d time(s)", head, sc.fctx.Before, sc.fctx.After, len(sc.fctx.Quiet)), wit)
 	case heldWithChanges && win.Where == "mid-stream":
 		undone := 0
 		for _, d := range ds {
